@@ -35,6 +35,7 @@ RULE += ' Round 8: probe tables with three and four probes; convert(out, label=N
 RULE += " Round 9: Kilosort's batch-ordered spike_times_reordered.npy in the source; a labelled and then an unlabelled conversion on one creator."
 RULE += ' Round 10: session files named temp_wheel_session.dat / temp_wh2.dat in the source; a forced re-export after the geometry and cluster files were replaced by same-size files dated 2001; templates with an exactly silent channel.'
 RULE += ' Round 12: sources giving spikes in seconds only (rounding-sensitive sample numbers); the channel map stored as channels.rawInd.npy; spikes with amplitude zero or below.'
+RULE += " Round 13: interleaved shanks; an optional channel_labels.npy in the source; the loaded export's template accessors (both forms agree unless params.py carries a display factor)."
 EXHAUSTIVE = {'quick': False, 'thorough': False}
 FLOORS = {'quick': {'evaluations': 600, 'distinct_nontrivial': 300},
           'thorough': {'evaluations': 9000, 'distinct_nontrivial': 5000}}
